@@ -76,7 +76,7 @@ class Recorder:
         return (self.einsum, self.tensordot)
 
 
-def snapshot(net, tree, orders=None, arrays=None, exec_order=None, combo_factor=64, light=False):
+def snapshot(net, tree, orders=None, arrays=None, exec_order=None, combo_factor=64, light=False, warm_order="__none__"):
     """Record everything the tree reports about itself."""
     snap = {"net": net.tla(), "ch": children_of(tree), "sliced": sliced_of(net, tree)}
     nodes = []
@@ -111,9 +111,16 @@ def snapshot(net, tree, orders=None, arrays=None, exec_order=None, combo_factor=
     snap["preexec"] = []
     if arrays is not None:
         rec = Recorder()
+        impl = rec.impl()
+        if warm_order != "__none__":
+            # the same tree executed before in ANOTHER order with the very same options: the steps observed for
+            # `exec_order` must still be those of `exec_order`
+            tree.contract_slice(arrays, 0, order=warm_order, implementation=impl) \
+                if tree.sliced_inds else tree.contract(arrays, order=warm_order, implementation=impl)
+            rec.calls.clear()
         # slice 0 of the (possibly sliced) tree; shapes are per-slice shapes
-        tree.contract_slice(arrays, 0, order=exec_order, implementation=rec.impl()) \
-            if tree.sliced_inds else tree.contract(arrays, order=exec_order, implementation=rec.impl())
+        tree.contract_slice(arrays, 0, order=exec_order, implementation=impl) \
+            if tree.sliced_inds else tree.contract(arrays, order=exec_order, implementation=impl)
         seq = [(p, l, r) for p, l, r in tree.traverse(exec_order)]
         pair_calls = [c for c in rec.calls if len(c[2]) == 2]
         pre_calls = [c for c in rec.calls if len(c[2]) == 1]
